@@ -157,10 +157,14 @@ type c06Outcome struct {
 //	4: A destination block of r1, B destination block of r2
 //	5: A and B global; 6: A and B in the destination block of r1
 var c06PreQuarantined bool
+var c06LastRcpts []string // the recipient strings of the last run, as sent
 
 func c06Run(shape int, lmtp bool, vA, vB [4]int) c06Outcome {
-	// same = 1: the second recipient is routed to the destination block of the first
-	same := verifParam("same", 0) == 1
+	// same = 1: the second recipient is routed to the destination block of the
+	// first; 2: it is the first recipient repeated verbatim; 3: it is a case
+	// variant of the first recipient (same block, another string)
+	sameMode := verifParam("same", 0)
+	same := sameMode >= 1
 	A := &c06Check{name: "A", verdict: vA}
 	B := &c06Check{name: "B", verdict: vB}
 	t1 := &c06Target{name: "t1", partial: lmtp}
@@ -205,7 +209,13 @@ func c06Run(shape int, lmtp bool, vA, vB [4]int) c06Outcome {
 	rcpts := []string{"r1@example.org", "r2@example.org"}
 	if same {
 		rcpts[1] = "r1b@example.org"
+		if sameMode == 2 {
+			rcpts[1] = "r1@example.org"
+		} else if sameMode == 3 {
+			rcpts[1] = "R1@example.org"
+		}
 	}
+	c06LastRcpts = rcpts
 	any := false
 	for i, r := range rcpts {
 		if err := dl.AddRcpt(ctx, r, smtp.RcptOptions{}); err != nil {
@@ -296,7 +306,7 @@ func harness_C06_checks() {
 	case 6:
 		scope[0] = append(scope[0], vA, vB)
 	}
-	if verifParam("same", 0) == 1 {
+	if verifParam("same", 0) >= 1 {
 		scope[1] = scope[0]
 	}
 	has := func(vs [][4]int, stage, verdict int) bool {
@@ -428,6 +438,16 @@ func harness_C06_checks() {
 			if s.sender > 1 || (s.sender == 0 && !connRejected) {
 				verifLog("check", c.name, "sender", s.sender)
 				verifFail("C06.sender-stage-not-exactly-once")
+			}
+			// a global check is the first thing every RCPT command meets: it sees
+			// every recipient string the client sent, exactly once
+			if shape == 0 && c.name == "A" {
+				for _, r := range c06LastRcpts {
+					if s.rcpt[r] != 1 {
+						verifLog("check A saw recipient", r, s.rcpt[r], "times")
+						verifFail("C06.recipient-not-shown-to-check")
+					}
+				}
 			}
 			for r, n := range s.rcpt {
 				if n != 1 {
